@@ -65,6 +65,18 @@ def c01(scen, rec, f):
         else:
             out.append(("C01", "maxsteps", "run did not finish within the step bound"))
         return out
+    # an API call may raise only what the API promises: submit on a broken / shut-down executor (or after the
+    # interpreter started to exit); create / get_reusable_executor / shutdown / cancel never raise
+    tbs = {(u, k): tb for u, k, tb in rec.get("api_tb", [])}
+    for ui, oi, op, outc in rec["api"]:
+        o = str(outc)
+        if not o.startswith("raise:"):
+            continue
+        if op == "submit" and o in ("raise:ShutdownExecutorError", "raise:TerminatedWorkerError:flag",
+                                    "raise:BrokenProcessPool:flag", "raise:RuntimeError"):
+            continue
+        out.append(("C01", "api-exception", f"{op} (user thread {ui}, script op {oi}) raised {o[6:]}: "
+                    + tbs.get((ui, op), "")[-400:].replace("\n", " | ")))
     if rec["end"] != "quiescent":
         return out
     for name, txt in rec["actors_exc"].items():
@@ -284,6 +296,12 @@ def attribute(scen, rec, f, fail):
     stuck configuration of this run satisfies, else None.  Predicates are on the final state."""
     blocked = rec["blocked"]
     dh = rec.get("dead_holders", {})
+    if fail[1] == "api-exception" and fail[2].startswith("reusable") and "_resize" in fail[2] \
+            and (("ValueError" in fail[2] and "is closed" in fail[2]) or
+                 ("TypeError" in fail[2] and "_processes_management_lock" in fail[2])) \
+            and any(op[0] == "shutdown" for u in scen["users"] for op in u) and len(scen["users"]) > 1:
+        # get_reusable_executor resizing an executor that another thread's explicit shutdown() is closing
+        return "D19"
     if fail[0] in ("C01", "C02", "C05", "C06") and fail[1] in ("api-hang", "future-unresolved", "manager-left-behind",
                                                            "worker-left-behind", "survivors", "not-flagged", "future-hangs",
                                                            "maxsteps", "livelock", "needs-task-progress"):
@@ -394,6 +412,11 @@ def c09(scen, rec, f):
                 prev_alive = [n for n in rec["final"]["alive"] if int(n[1:]) in b["pids"]]
                 if prev_alive and rec["end"] == "quiescent":
                     out.append(("C09", "previous-not-shut-down", f"workers of the replaced executor still alive: {prev_alive}"))
+        if r.get("stale_live"):
+            # (any number of calling threads) a fresh instance was handed out while an earlier one still had a
+            # running manager thread or live workers
+            out.append(("C09", "previous-not-shut-down", f"a fresh executor (id {r['id']}) was returned while earlier "
+                        f"instances were still running: {r['stale_live']} ({c['args']})"))
         if single and b is not None and r["id"] == b["id"] and (b["broken"] or b["shutdown"]):
             out.append(("C09", "returned-dead", f"the instance returned was already flagged when the call began ({c})"))
         last_id = max(last_id, r["id"])
